@@ -37,13 +37,13 @@ var c19Dims = []c19Dim{
 	{"update_interval", []string{"", "1m", "!bogus"}},
 	{"signature_validation_mode", []string{"", "verify", "verify_log", "none", "!bogus"}},
 	{"crl_url", []string{"", "u", "u,u2"}},
-	{"crl_file", []string{"", "f"}},
-	{"trusted_signature_cert_file", []string{"", "pem"}},
+	{"crl_file", []string{"", "f", "f,f2"}},
+	{"trusted_signature_cert_file", []string{"", "pem", "pem,pem2"}},
 	{"crl_fetch_mode", []string{"", "fetch_actively", "fetch_background", "!bogus"}},
 	{"crl_cdp_strict", []string{"", "true", "false", "!bogus"}},
 	{"default_cache_duration", []string{"", "1m", "!bogus"}},
 	{"ocsp_aia_strict", []string{"", "true", "false"}},
-	{"trusted_responder_cert_file", []string{"", "pem"}},
+	{"trusted_responder_cert_file", []string{"", "pem", "pem,pem2"}},
 	{"misspelt", []string{"", "top", "crl_config", "cdp_config", "ocsp_config"}},
 }
 
@@ -89,8 +89,8 @@ func (c c19Conf) String() string {
 }
 
 type c19Env struct {
-	dir, files, caPEM, crlFile, missing string
-	u, u2                               string
+	dir, files, caPEM, caPEM2, crlFile, crlFile2, missing string
+	u, u2                                                 string
 }
 
 func (c c19Conf) val(d int) string { return strings.TrimPrefix(c19Dims[d].Values[c[d]], "!") }
@@ -168,11 +168,11 @@ func (c c19Conf) renderCaddyfile(e *c19Env) string {
 		for _, u := range c.urls(e) {
 			fmt.Fprintf(&sb, "\t\tcrl_url %s\n", u)
 		}
-		if c.set(dFile) {
-			fmt.Fprintf(&sb, "\t\tcrl_file %s\n", e.crlFile)
+		for _, f := range c.files(e) {
+			fmt.Fprintf(&sb, "\t\tcrl_file %s\n", f)
 		}
-		if c.set(dTrusted) {
-			fmt.Fprintf(&sb, "\t\ttrusted_signature_cert_file %s\n", e.caPEM)
+		for _, f := range c.pems(dTrusted, e) {
+			fmt.Fprintf(&sb, "\t\ttrusted_signature_cert_file %s\n", f)
 		}
 		if c[dMisspelt] == 2 {
 			sb.WriteString("\t\tstorage_typ memory\n")
@@ -200,8 +200,8 @@ func (c c19Conf) renderCaddyfile(e *c19Env) string {
 		if c.set(dAIA) {
 			fmt.Fprintf(&sb, "\t\tocsp_aia_strict %s\n", c.val(dAIA))
 		}
-		if c.set(dResponder) {
-			fmt.Fprintf(&sb, "\t\ttrusted_responder_cert_file %s\n", e.caPEM)
+		for _, f := range c.pems(dResponder, e) {
+			fmt.Fprintf(&sb, "\t\ttrusted_responder_cert_file %s\n", f)
 		}
 		if c[dMisspelt] == 4 {
 			sb.WriteString("\t\tocsp_aia_strikt true\n")
@@ -210,6 +210,26 @@ func (c c19Conf) renderCaddyfile(e *c19Env) string {
 	}
 	sb.WriteString("}\n")
 	return sb.String()
+}
+
+func (c c19Conf) files(e *c19Env) []string {
+	switch c[dFile] {
+	case 1:
+		return []string{e.crlFile}
+	case 2:
+		return []string{e.crlFile, e.crlFile2}
+	}
+	return nil
+}
+
+func (c c19Conf) pems(d int, e *c19Env) []string {
+	switch c[d] {
+	case 1:
+		return []string{e.caPEM}
+	case 2:
+		return []string{e.caPEM, e.caPEM2}
+	}
+	return nil
 }
 
 func (c c19Conf) urls(e *c19Env) []string {
@@ -249,10 +269,10 @@ func (c c19Conf) renderJSON(e *c19Env) []byte {
 			cc["crl_urls"] = u
 		}
 		if c.set(dFile) {
-			cc["crl_files"] = []string{e.crlFile}
+			cc["crl_files"] = c.files(e)
 		}
 		if c.set(dTrusted) {
-			cc["trusted_signature_certs_files"] = []string{e.caPEM}
+			cc["trusted_signature_certs_files"] = c.pems(dTrusted, e)
 		}
 		if c[dMisspelt] == 2 {
 			cc["storage_typ"] = "memory"
@@ -288,7 +308,7 @@ func (c c19Conf) renderJSON(e *c19Env) []byte {
 			oc["ocsp_aia_strict"] = c.val(dAIA) == "true"
 		}
 		if c.set(dResponder) {
-			oc["trusted_responder_certs_files"] = []string{e.caPEM}
+			oc["trusted_responder_certs_files"] = c.pems(dResponder, e)
 		}
 		if c[dMisspelt] == 4 {
 			oc["ocsp_aia_strikt"] = true
@@ -400,12 +420,8 @@ func (c c19Conf) documented(e *c19Env) (eff c19Effective, mustFail bool) {
 	}
 	eff.SigMode = map[string]config.SignatureValidationMode{"": config.SignatureValidationModeVerify, "verify": config.SignatureValidationModeVerify, "verify_log": config.SignatureValidationModeVerifyLog, "none": config.SignatureValidationModeNone}[c.val(dSigMode)]
 	eff.URLs = c.urls(e)
-	if c.set(dFile) {
-		eff.Files = []string{e.crlFile}
-	}
-	if c.set(dTrusted) {
-		eff.TrustedN = 1
-	}
+	eff.Files = c.files(e)
+	eff.TrustedN = len(c.pems(dTrusted, e))
 	if c.val(dFetch) == "fetch_background" {
 		eff.Fetch = config.CRLFetchModeBackground
 	}
@@ -414,9 +430,7 @@ func (c c19Conf) documented(e *c19Env) (eff c19Effective, mustFail bool) {
 		eff.Cache = time.Minute
 	}
 	eff.AIAStrict = c.val(dAIA) == "true"
-	if c.set(dResponder) {
-		eff.ResponderN = 1
-	}
+	eff.ResponderN = len(c.pems(dResponder, e))
 	return eff, false
 }
 
@@ -526,7 +540,10 @@ func c19Worker(tier string, shard, n int) hWorkerOut {
 	p := world.Std()
 	env := &c19Env{dir: FreshDir("c19wd"), files: FreshDir("c19f"), u: "http://crl.test/c19a.crl", u2: "http://crl.test/c19b.crl"}
 	env.caPEM = WritePEM(env.files, "ca.pem", p.CA.Cert)
+	env.caPEM2 = WritePEM(env.files, "root.pem", p.Root.Cert)
 	env.crlFile = filepath.Join(env.files, "list.crl")
+	env.crlFile2 = filepath.Join(env.files, "list2.crl")
+	os.WriteFile(env.crlFile2, world.SimpleCRL(p.CA, 2, 702).DER(), 0644)
 	env.missing = filepath.Join(env.files, "does-not-exist")
 	good := world.SimpleCRL(p.CA, 1, 701).DER()
 	os.WriteFile(env.crlFile, good, 0644)
